@@ -122,8 +122,64 @@ pub fn c06(rep: &mut Rep) {
     }
 }
 
+/// hand-written files (C05): interleaved systems, several demand lines per service
+pub fn c05_special(rep: &mut Rep) {
+    for text in [
+        "1,CONSUMO,CAL,EAMBIENTE,9,12\n2,CONSUMO,CAL,EAMBIENTE,5,5\n1,CONSUMO,ACS,EAMBIENTE,4,12\n1,PRODUCCION,EAMBIENTE,4,30\n2,PRODUCCION,EAMBIENTE,1,9\n3,CONSUMO,ILU,ELECTRICIDAD,1,1",
+        "-1,CONSUMO,ACS,TERMOSOLAR,30\n0,CONSUMO,ACS,TERMOSOLAR,10\n-1,CONSUMO,CAL,TERMOSOLAR,30\n-1,PRODUCCION,TERMOSOLAR,25\n0,CONSUMO,CAL,TERMOSOLAR,2\n1,CONSUMO,ILU,ELECTRICIDAD,1",
+        "DEMANDA,CAL,100,50,0\nDEMANDA,ACS,20,20,20\nDEMANDA,CAL,30,10,5\nDEMANDA,ACS,10,10,10\nDEMANDA,REF,0,0,7\n1,CONSUMO,CAL,GASNATURAL,150,70,6\n1,CONSUMO,ACS,GASNATURAL,35,35,35",
+    ] {
+        rep.evals += 1;
+        rep.nontrivial += 1;
+        let comps: Components = match text.parse() { Ok(c) => c, Err(e) => { rep.fail("C05.special", text, format!("rejected: {}", e)); continue } };
+        // declared lines, parsed independently
+        let mut decl: Vec<(i32, String, bool, Vec<f32>)> = vec![]; // id, carrier, is_prod, values
+        let mut needs: std::collections::HashMap<String, Vec<f32>> = Default::default();
+        for l in text.lines() {
+            let f: Vec<&str> = l.split(',').map(|x| x.trim()).collect();
+            let vals = |from: usize| -> Vec<f32> { f[from..].iter().filter_map(|x| x.parse().ok()).collect() };
+            if f[0] == "DEMANDA" { let e = needs.entry(f[1].to_string()).or_insert_with(|| vec![0.0; vals(2).len()]); for (a, b) in e.iter_mut().zip(vals(2)) { *a += b; } continue; }
+            let id: i32 = f[0].parse().unwrap_or(0);
+            if f[1] == "CONSUMO" && (f[3] == "EAMBIENTE" || f[3] == "TERMOSOLAR") { decl.push((id, f[3].to_string(), false, vals(4))); }
+            if f[1] == "PRODUCCION" && (f[2] == "EAMBIENTE" || f[2] == "TERMOSOLAR") { decl.push((id, f[2].to_string(), true, vals(3))); }
+        }
+        for (srv, want) in &needs {
+            let got = match srv.as_str() { "CAL" => comps.needs.CAL.clone(), "ACS" => comps.needs.ACS.clone(), _ => comps.needs.REF.clone() };
+            if got.as_ref().map(|g| veq(g, want)) != Some(true) { rep.fail("C05.demand_kept", text, format!("demand of {}: {:?} stored, {:?} declared in total", srv, got, want)); }
+        }
+        let keys: std::collections::BTreeSet<(i32, String)> = decl.iter().map(|d| (d.0, d.1.clone())).collect();
+        for (id, cr) in keys {
+            let n = decl[0].3.len();
+            let sum = |prod: bool| -> Vec<f32> { let mut v = vec![0.0f32; n]; for d in decl.iter().filter(|d| d.0 == id && d.1 == cr && d.2 == prod) { for (a, b) in v.iter_mut().zip(&d.3) { *a += b; } } v };
+            let (u, p) = (sum(false), sum(true));
+            let want_total: Vec<f32> = u.iter().zip(&p).map(|(u, p)| p + (u - p).max(0.0)).collect();
+            let carrier: Carrier = cr.parse().unwrap();
+            let prods: Vec<&Vec<f32>> = comps.data.iter().filter_map(|c| match c { Energy::Prod(e) if e.id == id && Carrier::from(e.source) == carrier => Some(&e.values), _ => None }).collect();
+            let mut got = vec![0.0f32; n];
+            for v in &prods { for (a, b) in got.iter_mut().zip(v.iter()) { *a += b; } }
+            if !veq(&got, &want_total) { rep.fail("C05.exact_completion", text, format!("system {} {}: production after completion {:?}, expected declared + max(0, use - declared) = {:?}", id, cr, got, want_total)); }
+            let declared_lines = decl.iter().filter(|d| d.0 == id && d.1 == cr && d.2).count();
+            let uncovered = u.iter().zip(&p).any(|(u, p)| u - p > 0.0);
+            if prods.len() != declared_lines + uncovered as usize { rep.fail("C05.nothing_else", text, format!("system {} {}: {} production components after completion, {} declared{}", id, cr, prods.len(), declared_lines, if uncovered { " + 1 completing" } else { "" })); }
+        }
+    }
+}
+
 /// hand-written systems (clause id per class): auxiliaries of a system whose only use is the fuel of a cogenerator
 pub fn c06_special(rep: &mut Rep) {
+    // a single-service system with several AUX lines: every one of them gets the service
+    for (text, srv) in [("1,CONSUMO,REF,ELECTRICIDAD,0,50,100\n1,AUX,0,3,6\n1,AUX,0,4,8\n2,CONSUMO,CAL,ELECTRICIDAD,50,20,0\n2,CONSUMO,ACS,ELECTRICIDAD,5,5,5\n2,SALIDA,CAL,200,50,0\n2,SALIDA,ACS,50,50,50\n2,AUX,5,2,1\n3,PRODUCCION,EL_INSITU,10,10,10", Service::REF),
+                        ("4,CONSUMO,ACS,GASNATURAL,10,10\n4,AUX,1,1\n4,AUX,2,0\n4,AUX,0,0.5", Service::ACS)] {
+        rep.evals += 1;
+        match text.parse::<Components>() {
+            Ok(c) => {
+                let id = if srv == Service::REF { 1 } else { 4 };
+                let auxs: Vec<&cteepbd::types::EAux> = c.data.iter().filter_map(|e| if let Energy::Aux(a) = e { if a.id == id { Some(a) } else { None } } else { None }).collect();
+                if auxs.iter().any(|a| a.service != srv) { rep.fail("C06.single_service", text, format!("single-service system {}: auxiliary components with services {:?}", id, auxs.iter().map(|a| a.service).collect::<Vec<_>>())); }
+            }
+            Err(e) => rep.fail("C06.single_service", text, format!("rejected: {}", e)),
+        }
+    }
     for (clause, text, aux_total) in [
         ("C06.aux_of_cogeneration_only_system", "1,CONSUMO,COGEN,GASNATURAL,100\n1,PRODUCCION,EL_COGEN,30\n1,AUX,5\n3,CONSUMO,ILU,ELECTRICIDAD,10", 5.0f32),
         ("C06.special", "1,CONSUMO,COGEN,GASNATURAL,100\n1,CONSUMO,CAL,GASNATURAL,40\n1,SALIDA,CAL,30\n1,PRODUCCION,EL_COGEN,30\n1,AUX,5\n3,CONSUMO,ILU,ELECTRICIDAD,10", 5.0),
@@ -397,6 +453,10 @@ pub fn c10(rep: &mut Rep, seed: u64) {
         "1,CONSUMO,CAL,GASNATURAL,50\n1,AUX,5\n2,CONSUMO,CAL,ELECTRICIDAD,20\n2,CONSUMO,REF,ELECTRICIDAD,10\n2,SALIDA,CAL,30\n2,SALIDA,REF,-10\n2,AUX,4",
         // a multi-service system with a step without any output (its auxiliary energy of that step must not depend on the run)
         "1,CONSUMO,CAL,ELECTRICIDAD,10,20,5\n1,CONSUMO,ACS,ELECTRICIDAD,5,5,5\n1,CONSUMO,REF,ELECTRICIDAD,1,1,1\n1,SALIDA,CAL,30,60,0\n1,SALIDA,ACS,10,10,0\n1,SALIDA,REF,-5,-5,0\n1,AUX,4,2,3\n2,CONSUMO,ILU,ELECTRICIDAD,3,3,3",
+        // several systems using the same on-site carrier, some with their production declared in full, some without
+        "1,CONSUMO,CAL,EAMBIENTE,100,100\n1,PRODUCCION,EAMBIENTE,100,100\n2,CONSUMO,ACS,EAMBIENTE,50,50\n3,CONSUMO,CAL,EAMBIENTE,30,0\n3,PRODUCCION,EAMBIENTE,30,0\n4,CONSUMO,ACS,EAMBIENTE,7,9\n1,CONSUMO,CAL,ELECTRICIDAD,40,40\n2,CONSUMO,ACS,ELECTRICIDAD,20,20\n5,CONSUMO,ACS,TERMOSOLAR,5,5\n5,PRODUCCION,TERMOSOLAR,5,5\n6,CONSUMO,ACS,TERMOSOLAR,5,5",
+        // one service's output declared in several lines
+        "1,CONSUMO,CAL,ELECTRICIDAD,100,50\n1,CONSUMO,ACS,ELECTRICIDAD,20,20\n1,SALIDA,CAL,450,200\n1,SALIDA,ACS,80,80\n1,SALIDA,CAL,150,100\n1,AUX,40,20",
     ];
     let sig = |t: &str| -> Result<Vec<f32>, String> {
         let c: Components = t.parse().map_err(|e| format!("{}", e))?;
